@@ -842,7 +842,7 @@ func refFlow(r *Run, wantHF, wantImg bool) {
 					if relKind(rl.Type) != h.kind {
 						continue
 					}
-					if rl.Via == nil && rl.ID.Val == arg {
+					if rl.Via == nil && sameCarried(rl.ID.Val, arg) {
 						okFlow = true
 						// …and that relationship is created on EVERY path that reaches the reference
 						// (a path that re-uses an existing id skips the creation: the id then belongs to a
@@ -890,7 +890,7 @@ func refFlow(r *Run, wantHF, wantImg bool) {
 			nImg++
 			okFlow := false
 			for _, rl := range byFn[fn] {
-				if relKind(rl.Type) == "image" && rl.ID.Val == st.Val {
+				if relKind(rl.Type) == "image" && sameCarried(rl.ID.Val, st.Val) {
 					okFlow = true
 				}
 			}
